@@ -24,7 +24,7 @@ func FuzzC13Diff(f *testing.F) {
 		}
 		c := diffCase{A: BS(a), B: BS(b), Color: color}
 		if err := safeCheck(checkDiffCase, c); err != nil {
-			writeReplay("C13", "TestC13_Random", "", mustJSON(c), err)
+			writeReplay("C13", "TestC13_Random", "", vhMustJSON(c), err)
 			t.Fatalf("C13: %v", err)
 		}
 	})
@@ -40,7 +40,7 @@ func FuzzC01Store(f *testing.F) {
 		if len(data) > 1<<17 {
 			return
 		}
-		v := strVal(stripCR(string(data)))
+		v := strVal(vhStripCR(string(data)))
 		if hasTrailingCR(v.Text()) {
 			return
 		}
@@ -48,7 +48,7 @@ func FuzzC01Store(f *testing.F) {
 			Tests:    []TestProg{{Name: "TestA", Calls: []Call{{API: "snap", Vals: []Val{strVal("first\n[TestA - 2]\nx")}}, {API: "snap", Vals: []Val{v}}, {API: "snap", Vals: []Val{strVal("last")}}}}},
 			Run2Mode: []string{"default", "update_false", "ci", "clean"}[int(sel)%4], Run2Perm: []int{0}, Record: "env"}
 		if err := safeCheck(checkC01, c1); err != nil {
-			writeReplay("C01", "TestC01_Replay", "", mustJSON(c1), err)
+			writeReplay("C01", "TestC01_Replay", "", vhMustJSON(c1), err)
 			t.Fatalf("C01: %v", err)
 		}
 	})
@@ -64,7 +64,7 @@ func FuzzC02Changed(f *testing.F) {
 		if len(data) > 1<<17 {
 			return
 		}
-		v := strVal(stripCR(string(data)))
+		v := strVal(vhStripCR(string(data)))
 		if hasTrailingCR(v.Text()) {
 			return
 		}
@@ -90,7 +90,7 @@ func FuzzC02Changed(f *testing.F) {
 		c2 := c02Case{Cfg: CfgSpec{Dir: "snaps", Filename: "f"}, Test: "TestA", Stored: Call{API: "snap", Vals: []Val{v}}, Recv: Call{API: "snap", Vals: []Val{strVal(w)}},
 			Color: color, A: BS(a), B: BS(bb)}
 		if err := safeCheck(checkC02, c2); err != nil {
-			writeReplay("C02", "TestC02_Changed", "", mustJSON(c2), err)
+			writeReplay("C02", "TestC02_Changed", "", vhMustJSON(c2), err)
 			t.Fatalf("C02: %v", err)
 		}
 	})
